@@ -64,72 +64,72 @@ Fixpoint aupd {A} (k : N) (v : A) (l : list (N * A)) : list (N * A) :=
 
 (* ---------- data ---------- *)
 (* a DNS message as far as C05 is concerned: ghost instance number, header id, payload tag *)
-Record msg := mkMsg { mid : N; mhid : N; mtag : N }.
-Definition with_id (m : msg) (i : N) : msg := mkMsg (mid m) i (mtag m).
+Record pmsg := mkPmsg { mid : N; mhid : N; mtag : N }.
+Definition with_id (m : pmsg) (i : N) : pmsg := mkPmsg (mid m) i (mtag m).
 
-Inductive result := RMsg (m : msg) | RErrCtx | RErrClosed | RErrEoL | RErrWrite.
+Inductive presult := RMsg (m : pmsg) | RErrCtx | RErrClosed | RErrEoL | RErrWrite.
 
 (* program counter of an exchange; Written and Waiting of the design coincide (no atomic action between
    the return of write and the select) *)
-Inductive pc :=
+Inductive xpc :=
 | PStart                    (* before addQueueC *)
 | PAdded                    (* id assigned, queue entry present, query not yet written *)
 | PWaiting                  (* written; blocked in select *)
-| PLeaving (r : result)     (* outcome chosen; deferred deleteQueueC pending *)
-| PEol (r : result)         (* deleteQueueC found eol = true; closeWithErr(EoL) pending *)
-| PReturned (r : result).
+| PLeaving (r : presult)     (* outcome chosen; deferred deleteQueueC pending *)
+| PEol (r : presult)         (* deleteQueueC found eol = true; closeWithErr(EoL) pending *)
+| PReturned (r : presult).
 
-Record thread := mkThread {
+Record pthread := mkPthread {
   cid : N;                  (* caller's id = be16(m[0:2]) *)
   twid : option N;          (* wire id assigned by addQueueC *)
-  tpc : pc;
-  tchan : option msg;       (* respChan, capacity 1 *)
+  tpc : xpc;
+  tchan : option pmsg;       (* respChan, capacity 1 *)
   tcancel : bool            (* ctx.Done() closed *)
 }.
 
-Inductive rloop := RIdle | RHold (m : msg) | RSend (m : msg) (t : N).
+Inductive rloop := RIdle | RHold (m : pmsg) | RSend (m : pmsg) (t : N).
 
-Record state := mkState {
+Record pstate := mkPstate {
   istcp : bool;
   nextQid : N;
   reserved : N;
   queue : list (N * N);          (* wire id |-> thread whose respChan is registered *)
   closed : bool;
-  threads : list (N * thread);   (* newest first; key = spawn number *)
+  threads : list (N * pthread);   (* newest first; key = spawn number *)
   nthreads : N;
   rl : rloop;
-  emitted : list msg;            (* ghost, newest first *)
+  emitted : list pmsg;            (* ghost, newest first *)
   nemit : N;                     (* ghost *)
   alog : list (N * N)            (* ghost, newest first: (thread, wire id) *)
 }.
 
-Definition init (tcp : bool) (q0 : N) : state :=
-  mkState tcp q0 0 [] false [] 0 RIdle [] 0 [].
+Definition pinit (tcp : bool) (q0 : N) : pstate :=
+  mkPstate tcp q0 0 [] false [] 0 RIdle [] 0 [].
 
 (* field updates *)
-Definition set_nextQid v s := mkState (istcp s) v (reserved s) (queue s) (closed s) (threads s) (nthreads s) (rl s) (emitted s) (nemit s) (alog s).
-Definition set_reserved v s := mkState (istcp s) (nextQid s) v (queue s) (closed s) (threads s) (nthreads s) (rl s) (emitted s) (nemit s) (alog s).
-Definition set_queue v s := mkState (istcp s) (nextQid s) (reserved s) v (closed s) (threads s) (nthreads s) (rl s) (emitted s) (nemit s) (alog s).
-Definition set_closed v s := mkState (istcp s) (nextQid s) (reserved s) (queue s) v (threads s) (nthreads s) (rl s) (emitted s) (nemit s) (alog s).
-Definition set_threads v s := mkState (istcp s) (nextQid s) (reserved s) (queue s) (closed s) v (nthreads s) (rl s) (emitted s) (nemit s) (alog s).
-Definition set_nthreads v s := mkState (istcp s) (nextQid s) (reserved s) (queue s) (closed s) (threads s) v (rl s) (emitted s) (nemit s) (alog s).
-Definition set_rl v s := mkState (istcp s) (nextQid s) (reserved s) (queue s) (closed s) (threads s) (nthreads s) v (emitted s) (nemit s) (alog s).
-Definition set_emitted v n s := mkState (istcp s) (nextQid s) (reserved s) (queue s) (closed s) (threads s) (nthreads s) (rl s) v n (alog s).
-Definition set_alog v s := mkState (istcp s) (nextQid s) (reserved s) (queue s) (closed s) (threads s) (nthreads s) (rl s) (emitted s) (nemit s) v.
+Definition set_nextQid v s := mkPstate (istcp s) v (reserved s) (queue s) (closed s) (threads s) (nthreads s) (rl s) (emitted s) (nemit s) (alog s).
+Definition set_reserved v s := mkPstate (istcp s) (nextQid s) v (queue s) (closed s) (threads s) (nthreads s) (rl s) (emitted s) (nemit s) (alog s).
+Definition set_queue v s := mkPstate (istcp s) (nextQid s) (reserved s) v (closed s) (threads s) (nthreads s) (rl s) (emitted s) (nemit s) (alog s).
+Definition set_closed v s := mkPstate (istcp s) (nextQid s) (reserved s) (queue s) v (threads s) (nthreads s) (rl s) (emitted s) (nemit s) (alog s).
+Definition set_threads v s := mkPstate (istcp s) (nextQid s) (reserved s) (queue s) (closed s) v (nthreads s) (rl s) (emitted s) (nemit s) (alog s).
+Definition set_nthreads v s := mkPstate (istcp s) (nextQid s) (reserved s) (queue s) (closed s) (threads s) v (rl s) (emitted s) (nemit s) (alog s).
+Definition set_rl v s := mkPstate (istcp s) (nextQid s) (reserved s) (queue s) (closed s) (threads s) (nthreads s) v (emitted s) (nemit s) (alog s).
+Definition set_emitted v n s := mkPstate (istcp s) (nextQid s) (reserved s) (queue s) (closed s) (threads s) (nthreads s) (rl s) v n (alog s).
+Definition set_alog v s := mkPstate (istcp s) (nextQid s) (reserved s) (queue s) (closed s) (threads s) (nthreads s) (rl s) (emitted s) (nemit s) v.
 
-Definition tget (s : state) (t : N) : option thread := alookup t (threads s).
-Definition tput (t : N) (th : thread) (s : state) : state := set_threads (aupd t th (threads s)) s.
+Definition tget (s : pstate) (t : N) : option pthread := alookup t (threads s).
+Definition tput (t : N) (th : pthread) (s : pstate) : pstate := set_threads (aupd t th (threads s)) s.
 
-Definition th_pc (p : pc) (th : thread) := mkThread (cid th) (twid th) p (tchan th) (tcancel th).
-Definition th_wid (w : option N) (th : thread) := mkThread (cid th) w (tpc th) (tchan th) (tcancel th).
-Definition th_chan (c : option msg) (th : thread) := mkThread (cid th) (twid th) (tpc th) c (tcancel th).
-Definition th_cancel (b : bool) (th : thread) := mkThread (cid th) (twid th) (tpc th) (tchan th) b.
+Definition th_pc (p : xpc) (th : pthread) := mkPthread (cid th) (twid th) p (tchan th) (tcancel th).
+Definition th_wid (w : option N) (th : pthread) := mkPthread (cid th) w (tpc th) (tchan th) (tcancel th).
+Definition th_chan (c : option pmsg) (th : pthread) := mkPthread (cid th) (twid th) (tpc th) c (tcancel th).
+Definition th_cancel (b : bool) (th : pthread) := mkPthread (cid th) (twid th) (tpc th) (tchan th) b.
 
 (* connpool.ConnStatus *)
-Definition status_closed (s : state) : bool := closed s.
-Definition status_available (s : state) : bool := nextQid s + reserved s <=? 65535.
+Definition status_closed (s : pstate) : bool := closed s.
+Definition status_available (s : pstate) : bool := nextQid s + reserved s <=? 65535.
 
-Inductive label :=
+Inductive plabel :=
 | LSpawn (c : N)              (* a caller enters exchange with a query whose id is c *)
 | LCancel (t : N)             (* the caller's context is cancelled / times out *)
 | LReserve                    (* connpool picked the connection: Reserve() *)
@@ -148,11 +148,11 @@ Inductive label :=
 
 Definition is_nil {A} (l : list A) : bool := match l with [] => true | _ => false end.
 
-Definition step (s : state) (l : label) : option state :=
+Definition pstep (s : pstate) (l : plabel) : option pstate :=
   match l with
   | LSpawn c =>
       Some (set_nthreads (nthreads s + 1)
-             (set_threads ((nthreads s, mkThread c None PStart None false) :: threads s) s))
+             (set_threads ((nthreads s, mkPthread c None PStart None false) :: threads s) s))
   | LCancel t =>
       match tget s t with
       | Some th => Some (tput t (th_cancel true th) s)
@@ -194,7 +194,7 @@ Definition step (s : state) (l : label) : option state :=
       if i <? 65536 then
         match rl s with
         | RIdle =>
-            let m := mkMsg (nemit s) i tag in
+            let m := mkPmsg (nemit s) i tag in
             Some (set_rl (RHold m) (set_emitted (m :: emitted s) (nemit s + 1) s))
         | _ => None
         end
@@ -277,26 +277,26 @@ Definition step (s : state) (l : label) : option state :=
   | LClose => Some (set_closed true s)
   end.
 
-Fixpoint run (ls : list label) (s : state) : option state :=
+Fixpoint run (ls : list plabel) (s : pstate) : option pstate :=
   match ls with
   | [] => Some s
-  | l :: r => match step s l with Some s' => run r s' | None => None end
+  | l :: r => match pstep s l with Some s' => run r s' | None => None end
   end.
 
 (* ---------- deterministic big-step for quiescent histories ---------- *)
 (* Each external event is followed by running every enabled internal action to completion.  The big step
    only ever moves through [step] ([exec] = take the step when enabled), so it is a schedule of the LTS by
    construction (big_refines_small). *)
-Definition exec (s : state) (l : label) : state :=
-  match step s l with Some s' => s' | None => s end.
+Definition pexec (s : pstate) (l : plabel) : pstate :=
+  match pstep s l with Some s' => s' | None => s end.
 
-Definition settle (t : N) (s : state) : state :=
-  fold_left exec [LTakeReply t; LCtxArm t; LConnArm t; LDelete t; LEolClose t] s.
+Definition settle (t : N) (s : pstate) : pstate :=
+  fold_left pexec [LTakeReply t; LCtxArm t; LConnArm t; LDelete t; LEolClose t] s.
 
-Definition settle_all (s : state) : state :=
+Definition settle_all (s : pstate) : pstate :=
   fold_left (fun s kt => settle (fst kt) s) (threads s) s.
 
-Inductive event :=
+Inductive pevent :=
 | EvStart (c : N)             (* a new exchange (thread number = number of earlier EvStart) *)
 | EvReplyTo (k tag : N)       (* server emits a message carrying the wire id of exchange k *)
 | EvEmitId (i tag : N)        (* server emits a message with header id i *)
@@ -304,35 +304,35 @@ Inductive event :=
 | EvCancel (k : N)
 | EvClose.
 
-Definition do_emit (i tag : N) (s : state) : state :=
-  let s1 := exec (exec s (LRecv i tag)) LLookup in
+Definition do_emit (i tag : N) (s : pstate) : pstate :=
+  let s1 := pexec (pexec s (LRecv i tag)) LLookup in
   let tgt := match rl s1 with RSend _ t => Some t | _ => None end in
-  let s2 := exec s1 LSend in
+  let s2 := pexec s1 LSend in
   match tgt with Some t => settle t s2 | None => s2 end.
 
-Definition big_step (s : state) (e : event) : state :=
+Definition big_step (s : pstate) (e : pevent) : pstate :=
   match e with
   | EvStart c =>
       let t := nthreads s in
-      settle t (fold_left exec [LSpawn c; LAdd t; LWrite t true; LWrite t false] s)
+      settle t (fold_left pexec [LSpawn c; LAdd t; LWrite t true; LWrite t false] s)
   | EvReplyTo k tag =>
       match tget s k with
       | Some th => match twid th with Some w => do_emit w tag s | None => s end
       | None => s
       end
   | EvEmitId i tag => do_emit i tag s
-  | EvGarbage => settle_all (exec s LGarbage)
-  | EvCancel k => settle k (exec s (LCancel k))
-  | EvClose => settle_all (exec s LClose)
+  | EvGarbage => settle_all (pexec s LGarbage)
+  | EvCancel k => settle k (pexec s (LCancel k))
+  | EvClose => settle_all (pexec s LClose)
   end.
 
-Definition run_history (tcp : bool) (q0 : N) (evs : list event) : state :=
-  fold_left big_step evs (init tcp q0).
+Definition run_history (tcp : bool) (q0 : N) (evs : list pevent) : pstate :=
+  fold_left big_step evs (pinit tcp q0).
 
 (* observable per exchange, oldest first: (result or still-waiting, wire id the server saw) *)
-Inductive outcome := OMsg (tag : N) (idok : bool) | OErr | OWait.
+Inductive poutcome := OMsg (tag : N) (idok : bool) | OErr | OWait.
 
-Definition outcome_of (th : thread) : outcome * option N :=
+Definition outcome_of (th : pthread) : poutcome * option N :=
   match tpc th with
   | PReturned (RMsg m) | PLeaving (RMsg m) | PEol (RMsg m) => (OMsg (mtag m) (mhid m =? cid th), twid th)
   | PReturned RErrEoL | PReturned RErrWrite | PLeaving RErrWrite | PEol RErrWrite => (OErr, None)
@@ -341,10 +341,10 @@ Definition outcome_of (th : thread) : outcome * option N :=
   | PStart | PAdded => (OWait, None)
   end.
 
-Definition outcomes (s : state) : list (outcome * option N) :=
+Definition outcomes (s : pstate) : list (poutcome * option N) :=
   rev_append (map (fun kt => outcome_of (snd kt)) (threads s)) [].
 
-Definition history_outcomes (tcp : bool) (q0 : N) (evs : list event) : list (outcome * option N) * bool :=
+Definition history_outcomes (tcp : bool) (q0 : N) (evs : list pevent) : list (poutcome * option N) * bool :=
   let s := run_history tcp q0 evs in (outcomes s, closed s).
 
 (* ---------- executable oracle of the property on an observed run (used by the checks) ----------
@@ -356,11 +356,11 @@ Fixpoint mem_pair (w t : N) (l : list (N * N)) : bool :=
 Fixpoint memN (x : N) (l : list N) : bool :=
   match l with [] => false | a :: r => (a =? x) || memN x r end.
 
-Fixpoint oracle_go (obs : list (option N * option N)) (sent : list (N * N)) (seen : list N) : bool :=
+Fixpoint pl_oracle_go (obs : list (option N * option N)) (sent : list (N * N)) (seen : list N) : bool :=
   match obs with
   | [] => true
-  | (_, None) :: r => oracle_go r sent seen
+  | (_, None) :: r => pl_oracle_go r sent seen
   | (None, Some _) :: _ => false
-  | (Some w, Some t) :: r => mem_pair w t sent && negb (memN t seen) && oracle_go r sent (t :: seen)
+  | (Some w, Some t) :: r => mem_pair w t sent && negb (memN t seen) && pl_oracle_go r sent (t :: seen)
   end.
-Definition oracle (obs : list (option N * option N)) (sent : list (N * N)) : bool := oracle_go obs sent [].
+Definition pl_oracle (obs : list (option N * option N)) (sent : list (N * N)) : bool := pl_oracle_go obs sent [].
